@@ -3,6 +3,7 @@ import PyamgV.Proofs.C08Accel
 import PyamgV.Proofs.ExtSolvePathEx
 import PyamgV.Proofs.ExtPy2Accel
 import PyamgV.Proofs.ExtPy2Config
+import PyamgV.Proofs.ExtPy3Cycle
 
 /-! # C08 — accelerated and black-box solves reach the requested tolerance honestly
 
@@ -144,5 +145,10 @@ example : (ExtPy2Accel.gridNames C08.tables 0 0).length = 800 ∧ (ExtPy2Accel.g
 example : (ExtPy2Accel.expected C08.tables
       { cycle := "w", symmetry := none, symSmoothing := true, accel := .name "minres", tol := 1/8, maxiter := 3, x0 := false,
         callback := false, residuals := true, returnInfo := true } 2 (1/2)).2.length = 11 := by decide +kernel
+
+/-- (E57, FINITE grid: `m + 1` levels for `m ∈ {1..5}`, `cycles_per_level ∈ {1, 2, 3}`) the F-cycle of the `__solve`
+GENERATED from the working tree (`Generated/PyLogic3_cycle.lean`): `cycles_per_level` reaches the F visit of the next
+level and is the number of V-cycles (called with `'V'`, 1) that follow it -- the visits are `C03.traceM .F k` -/
+restate generated_cycle_F_visits_grid_5x3 := PyamgV.ExtPy3Cyc.cycle_F_visits_grid_5x3
 
 end PyamgV.Props.C08
